@@ -129,6 +129,8 @@ Definition wf_memberb (m : amember) : bool :=
   (* a visor member never has blocks after its header; a standard one has its padded content *)
   && (if a_visor m then zlen (a_data m) =? 0
       else zlen (a_data m) =? (if s_has_data (spec_type m) then s_block (a_size m) else 0))
-  && bytes_okb (a_data m).
+  && bytes_okb (a_data m)
+  (* a directory has a name besides its trailing slashes *)
+  && (negb (spec_type m =? 53) || match s_rstrip_slash (a_name m) with [] => false | _ => true end).
 
 Definition wf_archiveb (a : list amember) : bool := forallb wf_memberb a.
